@@ -159,6 +159,13 @@ def run_hexary(prune, prior, rng):
                 bad = f"traverse_from<{nname}>: not refused with tag {tag} / changed state"
         except Exception:
             pass
+    # elements that merely CONVERT to a nibble (a fractional float, a digit string, digit bytes) are not nibbles: ValueError
+    for val in ((1.5,), ("1",), (b"2",), (3, "7"), (0, 2.25)):
+        for label, call in (("traverse", lambda: t.traverse(val)), ("traverse_from", lambda: t.traverse_from(t.root_node, val))):
+            b4 = snap_hex(t, backing)
+            out = guard(call)
+            if bad is None and (out is None or out.tag not in (13, 14) or snap_hex(t, backing) != b4):
+                bad = f"{label}({val!r}): a malformed nibble sequence was not refused with TypeError / ValueError: {out!r}"
     # at_root on a pruning trie; ref_count to a non-pruning trie
     if prune:
         record("at_root(pruning)", lambda: t.at_root(t.root_hash).__enter__(), ("HAtRootGet", bytes(t.root_hash), b"\x01"), 1)
